@@ -76,6 +76,15 @@ def make_data(rs, algo, dt="float64", cls=None, order=None, rank_hint=None):
     if algo in ("tr_als",):
         order = max(order, 3)
     shp = gen.shape(rs, order, 2, 6 if order < 4 else 4)
+    # shapes with coincidences a derived quantity may key on: all modes equal, two modes equal, a square unfolding
+    coincidence = rs.rand()
+    if coincidence < 0.12:
+        shp = [shp[0]] * order
+    elif coincidence < 0.24 and order >= 2:
+        i_, j_ = rs.choice(order, size=2, replace=False)
+        shp[int(j_)] = shp[int(i_)]
+    elif coincidence < 0.30 and order == 3:
+        shp = [4, 2, 2] if rs.rand() < 0.5 else [2, 6, 3]      # mode-0 / mode-1 unfolding is square
     if "lowrank" in cls:
         R = rank_hint or int(rs.randint(1, 4))
         fs = [(np.abs(rs.standard_normal((s, R))) + 0.1 if "nonneg" in cls else rs.standard_normal((s, R))) for s in shp]
@@ -272,6 +281,13 @@ def run(algo, data, rank, n_iter_max, opts=None, seed=0, tol=None, init=None, ca
     from tensorly import decomposition as D
     from tensorly.decomposition import _cmtf_als
     opts = dict(opts or {})
+    if algo != "cmtf" and seed % 8 == 5 and "verbose" not in opts:
+        # the chatty setting runs extra statements in every sweep (formatting iterates, differences of the error list):
+        # it must not change anything that is returned
+        import contextlib, io
+        ROUTES["verbose"] = ROUTES.get("verbose", 0) + 1
+        with contextlib.redirect_stdout(io.StringIO()):
+            return run(algo, data, rank, n_iter_max, dict(opts, verbose=1), seed, tol, init, callback)
     if algo in CLASS_OF and seed % 4 == 0:
         r = _run_class(algo, data, rank, n_iter_max, opts, seed, tol, init, callback)
         if r is not None:
@@ -407,7 +423,11 @@ def option_sets(rs, algo, order):
 def pick_rank(rs, algo, data):
     if algo in ("tucker", "nn_tucker", "nn_tucker_hals"):
         shp = data["shape"]
-        return [int(rs.randint(1, min(s, 3) + 1)) for s in shp]
+        rk = [int(rs.randint(1, min(s, 3) + 1)) for s in shp]
+        if rs.rand() < 0.15:       # full multilinear rank in one mode (rank equal to the mode size)
+            m_ = int(rs.randint(len(shp)))
+            rk[m_] = min(shp[m_], 4)
+        return rk
     if algo == "tr_als":
         n = len(data["shape"])
         # bond ranks 1-3, deliberately including ranks a neighbouring core cannot carry (rank-deficient design matrices)
@@ -423,4 +443,8 @@ def pick_rank(rs, algo, data):
         K = data["slices"][0].shape[1]
         minJ = min(s.shape[0] for s in data["slices"])
         return int(rs.randint(1, min(3, K, minJ) + 1))
+    if data["kind"] == "tensor" and rs.rand() < 0.15:
+        small = [s_ for s_ in data["shape"] if s_ <= 4]
+        if small:
+            return int(gen.choice(rs, small))     # rank equal to a mode size
     return int(rs.randint(1, 4))
